@@ -66,6 +66,9 @@ func init() {
 	if s := envInt("VERIF_YIELD_SEED"); s != 0 {
 		SetYieldSeed(uint64(s))
 	}
+	if envInt("VERIF_YIELD_COUNT") != 0 {
+		SetYieldCounting(true)
+	}
 }
 
 // SetFailAt makes the n-th write from now on fail (0 disables) and resets the counter.
